@@ -91,6 +91,17 @@ CHECKS = {
              'documented rules; each state is replayed: the produced text is searched for omitted member names and sentinels and '
              'compared with the exact predicted document, and strict decoding per caller is compared with the predicted outcome.',
         ref='3.5, 4 (C13)'),
+    'C18': dict(
+        technique='TLA+ spec StoneEmit (path resolution by segment stack; emitter buffer machine with Escape/Format transcribed character by character vs reference pretty-printer; real vs manifest run of open/copy/write scripts) explored by TLC; every state replayed on real Backend subclasses',
+        text='TLC enumerates all 2064 paths of 1-3 segments over {name, name, ., .., empty, non-ASCII} x {relative, absolute outside, absolute '
+             'inside, absolute beside the root} x trailing slash and checks Contained; every emit script of <=3 (thorough 4) operations over '
+             '30 operations (13 texts with braces, {0}, {x}, %, backslash, non-ASCII; indent/block contexts; named/positional placeholders; '
+             'multiline lists) and checks Verbatim (escape-on-emit + str.format-at-close = reference lines) and EscapeFormatIdentity; all '
+             'open/copy/swift-write scripts of <=3 operations and checks ManifestFidelity. Each state is replayed in a sandbox whose PARENT '
+             'directory is snapshotted before and after: through output_to_relative_path, copy_to_path and the Swift writer; file bytes '
+             'compared with the predicted text; manifest output compared with the files of the real run; plus all 17 built-in backend rows '
+             'in real and manifest mode on two spec sets.',
+        ref='3.8, 4 (C18)'),
     'C19': dict(
         technique='TLA+ spec StoneCli (precedence parser ParseModel + three-valued Eval + pruning pipeline with error exits) explored by TLC; every state replayed through stone.cli.main with a recording backend',
         text='TLC enumerates filter strings (all atom (and|or atom)* of <=3 atoms, thorough 4, one optional parenthesised sub-range, every '
